@@ -14,7 +14,7 @@ def chain_for(r, coin, n):
 def explore(ck):
     r = ck.rng; quick = ck.tier == 'quick'
     ck.rule = ('bounded-exhaustive: every chain length T+1 (T <= %d) x every accepted (--start s, --end e) incl. absent, e below/at/above the tip, s up to T, '
-               'x 5 callbacks (callback rotates per (T,s,e) in the quick tier, all five in the thorough tier) x --verify on/off; plus high-height windows, windows whose index has no record below --start, indexes with header-only records above the tip and header-only/stale siblings (sorting before the active block) at occupied heights, chains of 140..520 blocks and blocks ping-ponging between two blk files '
+               'x 5 callbacks (callback rotates per (T,s,e) in the quick tier, all five in the thorough tier) x --verify on/off; plus high-height windows, windows whose index has no record below --start, indexes with header-only records above the tip and header-only/stale siblings (sorting before the active block) at occupied heights, equal-sized blocks stored out of order over two files (a block of one file at the offset where the other file was left), chains of 140..520 blocks and blocks ping-ponging between two blk files '
                '(multi-byte VarInt heights). Non-trivial: s > 0 or e <= T (a bound cuts the chain); distinct by (T,s,e,callback).' % (4 if quick else 9))
     cases = []; expect = {}
     Tmax = 4 if quick else 9
@@ -78,6 +78,15 @@ def explore(ck):
                 off = c.put_block(f, b.raw); c.add_record(b, h, f, off)
             c.start = s; c.end = e; c.verify = s > 0; c.meta['cbs'] = ['csv', 'opreturn'] if quick else CBS; c.meta['T'] = T
             expect[c.id] = list(range(s, min(e, T) + 1 if e is not None else T + 1)); cases.append(c)
+    # equal-sized blocks arriving out of order over two files: blk0 = [0,1,2], blk1 = [6,7,8,3,4,5] - height 3 sits in file 1 at the very offset where file 0 ended
+    from . import c03
+    for s, e in [(0, None), (2, 5), (3, None), (1, 6)]:
+        coin = 'bitcoin'; blocks = c03.equal_size_chain(r, coin, 9); c = Case('straggler_s%d_e%s' % (s, e), coin); offs = {}
+        for h in [0, 1, 2]: offs[h] = (0, c.put_block(0, blocks[h].raw))
+        for h in [6, 7, 8, 3, 4, 5]: offs[h] = (1, c.put_block(1, blocks[h].raw))
+        for h in range(9): c.add_record(blocks[h], h, *offs[h])
+        c.start = s; c.end = e; c.meta['cbs'] = ['csv', 'unspent']; c.meta['T'] = 8
+        expect[c.id] = list(range(s, min(e, 8) + 1 if e is not None else 9)); cases.append(c)
     def nontrivial(c, m):
         T = c.meta['T']
         return (T, c.start, c.end, tuple(c.meta['cbs'])) if (c.start > 0 or (c.end is not None and c.end <= T)) else None
